@@ -64,6 +64,8 @@ static inline unsigned long hstr(const std::string& s) {
     return h;
 }
 
+static void materialize();
+static void lz_fn_reset();
 static void sanitize(char* s) { for (; *s; ++s) if (*s=='\t' || *s=='\n') *s=' '; }
 
 // Begin a case. Returns true when the case must be executed.
@@ -74,6 +76,7 @@ static bool case_begin(const char* fmt, ...)
     if (ctx.stop) return false;
     if (ctx.only >= 0 && ctx.caseno != ctx.only) return false;
     if (ctx.upto >= 0 && ctx.caseno > ctx.upto) { ctx.stop = true; return false; }
+    lz_fn_reset();
     va_list ap; va_start(ap, fmt);
     vsnprintf(ctx.cur, sizeof(ctx.cur), fmt, ap);
     va_end(ap);
@@ -95,6 +98,7 @@ static void violation(const char* tag, const char* fmt, ...)
     vsnprintf(msg, sizeof(msg), fmt, ap);
     va_end(ap);
     sanitize(msg);
+    materialize();
     ++ctx.viol;
     if (ctx.viol <= ctx.maxviol) {
         printf("VIOL\t%ld\t%s\t%s\t%s\n", ctx.caseno, tag, ctx.cur, msg);
@@ -113,6 +117,7 @@ static void declined(const char* fmt, ...)
 }
 static void finish_unit()
 {
+    materialize();
     if (ctx.evals && (ctx.samples.empty() || ctx.samples.back() != ctx.cur)) ctx.samples.push_back(ctx.cur);
     for (auto& s : ctx.samples) printf("SAMPLE\t%s\n", s.c_str());
     printf("STAT\tevals=%ld\tnontrivial=%ld\toutcomes=%zu\ttransitions=%ld\taudits=%ld\tviol=%ld\tcases=%ld",
@@ -124,6 +129,7 @@ static void finish_unit()
 
 static void crash_handler(int sig)
 {
+    materialize();
     char buf[17000];
     int n = snprintf(buf, sizeof(buf), "\nCRASH\t%ld\t%d\t%s\n", ctx.caseno, sig, ctx.cur);
     if (n > 0) { ssize_t r = write(1, buf, (size_t)n); (void)r; }
@@ -131,6 +137,7 @@ static void crash_handler(int sig)
 }
 extern "C" void __asan_on_error()
 {
+    materialize();
     char buf[17000];
     int n = snprintf(buf, sizeof(buf), "\nCRASH\t%ld\t%d\t%s\n", ctx.caseno, 99, ctx.cur);
     if (n > 0) { ssize_t r = write(1, buf, (size_t)n); (void)r; }
@@ -480,8 +487,8 @@ static void read_eval(const dd_edge& e, const Kind& k, const Shape& s, Table& ou
     for (long p=0;p<P;p++) {
         if (k.rel) { decode_rel(s,p,x,xp); for (int i=1;i<=s.K();i++) m.setVars(i,x[i],xp[i]); }
         else { decode_set(s,p,x); for (int i=1;i<=s.K();i++) m.setVar(i,x[i]); }
-        e.evaluate(m, rv);
-        out[p] = from_rangeval(rv);
+        try { e.evaluate(m, rv); out[p] = from_rangeval(rv); }
+        catch (MEDDLY::error er) { out[p] = NAN; }   // evaluate() itself failed: reported as a value mismatch (nan)
     }
 }
 // (b) the harness walker: own reading of the reduction rules and of EV accumulation
@@ -882,6 +889,131 @@ static unary_operation* get_uop(unary_factory& f, forest* a, forest* c, const ch
         if (declined_once.insert(buf).second) declined("%s", buf);
     }
     return op;
+}
+
+// A universe of functions held in one forest, indexable by function number.
+struct Universe {
+    forest* F = nullptr; Kind k; Shape s; std::vector<double> V; long P = 0; unsigned long U = 0;
+    std::vector<dd_edge> e;
+    // builds and verifies (double read-out) every function; returns false on a build violation
+    bool build(forest* f, const Kind& kk, const Shape& ss, const std::vector<double>& vv, bool verify=true) {
+        F=f; k=kk; s=ss; V=vv; P=s.points(k.rel); U=ipow(V.size(),P);
+        e.assign(U, dd_edge(F));
+        Builder B(F,k,s);
+        for (unsigned long i=0;i<U;i++) {
+            Table t = tab_from_index(i,P,V);
+            B.build(t, e[i]);
+            if (verify) {
+                std::string err = check_edge(e[i],k,s,t);
+                if (!err.empty()) { snprintf(ctx.cur,sizeof ctx.cur,"universe build kind=%s shape=%s f=%lu [%s]",k.name().c_str(),s.name.c_str(),i,tab_str(t).c_str()); violation("build-readback","%s",err.c_str()); return false; }
+            }
+        }
+        return true;
+    }
+    Table table(unsigned long i) const { return tab_from_index(i,P,V); }
+    // function number of a table, or -1 if some value is outside the alphabet
+    long index_of(const Table& t) const {
+        unsigned long idx=0;
+        for (long p=P-1;p>=0;p--) {
+            int d=-1; for (size_t j=0;j<V.size();j++) if (V[j]==t[p]) { d=(int)j; break; }
+            if (d<0) return -1;
+            idx = idx*V.size()+d;
+        }
+        return (long)idx;
+    }
+    // re-read every held edge: "operands are never changed"
+    std::string recheck() const {
+        for (unsigned long i=0;i<U;i++) {
+            Table t = table(i), x; read_eval(e[i],k,s,x);
+            if (!tab_eq(k,x,t)) return "held operand f=" + std::to_string(i) + " now reads [" + tab_str(x) + "], was [" + tab_str(t) + "]";
+        }
+        return "";
+    }
+    void clear() { e.clear(); }
+};
+
+// Oracle for an operation result: identical to the harness-built canonical edge for the expected
+// table (exact kinds), else compared value by value through both readers.
+static std::string check_result(const dd_edge& res, const Kind& k, const Shape& s, const Table& expect, bool exact=true)
+{
+    forest* F = res.getForest();
+    if (!F) return "result edge is not attached to a forest";
+    if (exact && k.range!='r') {
+        Builder B(F,k,s);
+        dd_edge x(F); B.build(expect, x);
+        if (x == res) return "";
+        Table a; read_eval(res,k,s,a);
+        if (tab_eq(k,a,expect)) {
+            Table b; read_walk(res,k,s,b);
+            if (tab_eq(k,b,expect)) return "NONCANONICAL: result denotes the expected function [" + tab_str(expect) + "] but is not the canonical edge";
+            return "walker gives [" + tab_str(b) + "] expected [" + tab_str(expect) + "]";
+        }
+        return "result reads [" + tab_str(a) + "] expected [" + tab_str(expect) + "]";
+    }
+    return check_edge(res,k,s,expect);
+}
+
+// The structured family B (DESIGN 3.2): defined by exhaustive rules, returned as sorted function numbers.
+//  (1) all functions differing from a constant in at most `npts` points
+//  (2) all functions depending on a single variable (relations: on a single (x_k,x'_k) pair)
+//  (3) relations: g * [x_k = x'_k for k in I] for every non-empty I, g constant or single-variable
+static std::vector<unsigned long> structured_family(const Kind& k, const Shape& s, const std::vector<double>& V, int npts=2)
+{
+    long P = s.points(k.rel); size_t n = V.size();
+    std::set<unsigned long> out;
+    std::vector<unsigned long> pw(P+1); pw[0]=1; for (long p=1;p<=P;p++) pw[p]=pw[p-1]*n;
+    auto idx_of = [&](const std::vector<int>& dig){ unsigned long x=0; for (long p=P-1;p>=0;p--) x=x*n+dig[p]; return x; };
+    // (1)
+    for (size_t c=0;c<n;c++) {
+        std::vector<int> dig(P,(int)c);
+        out.insert(idx_of(dig));
+        for (long p=0;p<P;p++) for (size_t a=0;a<n;a++) { if (a==c) continue; dig[p]=(int)a; out.insert(idx_of(dig));
+            if (npts>=2) for (long q=p+1;q<P;q++) for (size_t b=0;b<n;b++) { if (b==c) continue; dig[q]=(int)b; out.insert(idx_of(dig)); dig[q]=(int)c; }
+            dig[p]=(int)c; }
+    }
+    // (2) and (3)
+    int x[16], xp[16];
+    int zero_digit = 0; for (size_t j=0;j<n;j++) if (V[j]==k.dflt()) zero_digit=(int)j;
+    for (int var=1; var<=s.K(); var++) {
+        int b = s.b[var-1]; int cells = k.rel ? b*b : b;
+        unsigned long ng = ipow(n, cells);
+        if (ng > 4096) continue;
+        for (unsigned long g=0; g<ng; g++) {
+            std::vector<int> gd(cells); { unsigned long y=g; for (int c=0;c<cells;c++){ gd[c]=y%n; y/=n; } }
+            unsigned long nI = k.rel ? (1UL<<s.K()) : 1;
+            for (unsigned long I=0; I<nI; I++) {
+                std::vector<int> dig(P);
+                for (long p=0;p<P;p++) {
+                    int cell;
+                    bool onid = true;
+                    if (k.rel) { decode_rel(s,p,x,xp); cell = x[var]*b+xp[var]; for (int m=1;m<=s.K();m++) if ((I>>(m-1))&1) if (x[m]!=xp[m]) onid=false; }
+                    else { decode_set(s,p,x); cell = x[var]; }
+                    dig[p] = onid ? gd[cell] : zero_digit;
+                }
+                out.insert(idx_of(dig));
+            }
+        }
+    }
+    return std::vector<unsigned long>(out.begin(), out.end());
+}
+
+// cheap case bookkeeping for very long sweeps: the description is formatted only on demand
+typedef void (*lazy_fmt)(char* buf, size_t n, const long* a);
+static lazy_fmt lz_fn = nullptr; static long lz_a[8];
+static void lz_fn_reset() { lz_fn = nullptr; }
+static void materialize() { if (lz_fn && !ctx.cur[0]) { lz_fn(ctx.cur, sizeof(ctx.cur), lz_a); sanitize(ctx.cur); } }
+static inline bool case_lazy(lazy_fmt f, long a0=0, long a1=0, long a2=0, long a3=0, long a4=0, long a5=0, long a6=0)
+{
+    ++ctx.caseno;
+    if (ctx.stop) return false;
+    if (ctx.only >= 0 && ctx.caseno != ctx.only) return false;
+    if (ctx.upto >= 0 && ctx.caseno > ctx.upto) { ctx.stop = true; return false; }
+    lz_fn = f; lz_a[0]=a0; lz_a[1]=a1; lz_a[2]=a2; lz_a[3]=a3; lz_a[4]=a4; lz_a[5]=a5; lz_a[6]=a6;
+    ctx.cur[0] = 0;
+    ++ctx.evals;
+    if (ctx.samples.empty()) { materialize(); ctx.samples.push_back(ctx.cur); }
+    else if ((ctx.evals & (ctx.evals-1)) == 0) { materialize(); if (ctx.samples.size()<2) ctx.samples.push_back(ctx.cur); else ctx.samples[1] = ctx.cur; }
+    return true;
 }
 
 // set a minterm to a point
